@@ -409,6 +409,11 @@ package types
 // ---- event emitter (C20): registrations hold no nil entries; Once fires through a Once of its own registration; removal
 // takes exactly one entry ------------------------------------------------------------------------------------------------
 //@ func (*emmiter).addListeners(evt, listeners)
+//@   trusted "stores into the generic Map (LoadOrStore on a type-parameterised container): outside the subset"
+//@   requires e != nil
+//@   modifies *
+//@ func (*emmiter).RemoveListener(evt, listener)
+//@   trusted "hands a pointer into the emitter object (&e.evtListeners) to the Map methods: outside the subset; its splice callback RemoveListener$1 is under contract"
 //@   requires e != nil
 //@   modifies *
 //@ func (*emmiter).AddListener(evt, listeners)
